@@ -220,37 +220,40 @@ def check_case(case):
                 exp = math.ceil(exp / 2)
             require(got.get(s, 0) == exp, "topbottom.halves_rounding_up", lambda: "sample %r: %d plates -> %d after %d iterations, expected %d" % (s, c, got.get(s, 0), it, exp))
 
-    # ---- sparse cover on the fully observed screen
-    full = S.build_screen(dict(sc_any, observed=sorted({r["p"] for r in sc_any["rows"]})))
-    flag = case["cover_flag"]
-    out = _run("SparseCover", lambda: R.SparseCoverPlateGenerator(reveal_single_treatment_experiments=flag).generate_and_unmask_initial_plate(full, np.random.default_rng(seed)), labels)
-    if out is not None:
-        labels.append("ran:SparseCover")
-        require(out.size == full.size, "cover.size", "sparse cover changed the number of experiments")
-        mask = np.asarray(out.observation_mask)
-        require(mask.any(), "cover.nonempty", "nothing observed")
-        need_s = set(str(x) for x in full.sample_names)
-        got_s = set(str(out.sample_names[i]) for i in range(out.size) if mask[i])
-        require(got_s == need_s, "cover.every_sample", lambda: "samples without an observed experiment: %r" % sorted(need_s - got_s))
-        ctl = sc["control"]
-        def conds(s, rows):
-            c = set()
-            for i in rows:
-                for n_, d_ in zip(s.treatment_names[i], s.treatment_doses[i]):
-                    if not (str(n_) == ctl or float(d_) <= 0):
-                        c.add((str(n_), float(d_)))
-            return c
-        need_t = conds(full, range(full.size))
-        got_t = conds(out, [i for i in range(out.size) if mask[i]])
-        require(got_t == need_t, "cover.every_treatment", lambda: "treatments without an observed experiment: %r" % sorted(need_t - got_t))
-        rest = {str(out.plate_names[i]) for i in range(out.size) if not mask[i]}
-        require(len(rest) <= 1, "cover.one_unobserved_plate", lambda: "unobserved experiments are spread over plates %r" % sorted(rest))
-        obs_pl = {str(out.plate_names[i]) for i in range(out.size) if mask[i]}
-        require(not (rest & obs_pl), "cover.plates_disjoint", "observed and unobserved experiments share a plate")
-        if flag:
-            for i in range(out.size):
-                has_ctl = any(str(n_) == ctl or float(d_) <= 0 for n_, d_ in zip(out.treatment_names[i], out.treatment_doses[i]))
-                require(mask[i] or not has_ctl, "cover.single_agent_revealed", lambda: "row %d contains a control but is not observed" % i)
+    # ---- sparse cover on the fully observed screen (the case's layout and the small screen)
+    for csc in (sc_any, case.get("filter_screen")):
+      if csc is None:
+        continue
+      full = S.build_screen(dict(csc, observed=sorted({r["p"] for r in csc["rows"]})))
+      flag = case["cover_flag"]
+      out = _run("SparseCover", lambda: R.SparseCoverPlateGenerator(reveal_single_treatment_experiments=flag).generate_and_unmask_initial_plate(full, np.random.default_rng(seed)), labels)
+      if out is not None:
+          labels.append("ran:SparseCover")
+          require(out.size == full.size, "cover.size", "sparse cover changed the number of experiments")
+          mask = np.asarray(out.observation_mask)
+          require(mask.any(), "cover.nonempty", "nothing observed")
+          need_s = set(str(x) for x in full.sample_names)
+          got_s = set(str(out.sample_names[i]) for i in range(out.size) if mask[i])
+          require(got_s == need_s, "cover.every_sample", lambda: "samples without an observed experiment: %r" % sorted(need_s - got_s))
+          ctl = sc["control"]
+          def conds(s, rows):
+              c = set()
+              for i in rows:
+                  for n_, d_ in zip(s.treatment_names[i], s.treatment_doses[i]):
+                      if not (str(n_) == ctl or float(d_) <= 0):
+                          c.add((str(n_), float(d_)))
+              return c
+          need_t = conds(full, range(full.size))
+          got_t = conds(out, [i for i in range(out.size) if mask[i]])
+          require(got_t == need_t, "cover.every_treatment", lambda: "treatments without an observed experiment: %r" % sorted(need_t - got_t))
+          rest = {str(out.plate_names[i]) for i in range(out.size) if not mask[i]}
+          require(len(rest) <= 1, "cover.one_unobserved_plate", lambda: "unobserved experiments are spread over plates %r" % sorted(rest))
+          obs_pl = {str(out.plate_names[i]) for i in range(out.size) if mask[i]}
+          require(not (rest & obs_pl), "cover.plates_disjoint", "observed and unobserved experiments share a plate")
+          if flag:
+              for i in range(out.size):
+                  has_ctl = any(str(n_) == ctl or float(d_) <= 0 for n_, d_ in zip(out.treatment_names[i], out.treatment_doses[i]))
+                  require(mask[i] or not has_ctl, "cover.single_agent_revealed", lambda: "row %d contains a control but is not observed" % i)
 
     # ---- combination filter (on the case's layout and on a small screen of its own)
     for fsc in (sc_any, case.get("filter_screen")):
